@@ -37,6 +37,8 @@ def size_decade(inst):
         elif s["verts"]:
             sc.append(max(max(abs(c) for c in v) for v in s["verts"]))
     body = max(sc) if sc else 1
+    if inst["law"] == "point":
+        return int(math.floor(math.log10(inst["pt"]["rho"] / body) + 0.5))
     if inst["law"] == "flux":
         lin = {"cyl": (0, 2), "sph": (0,)}.get(inst["ch"]["type"], (0, 1, 2))
         cell = max(inst["hi"][k] - inst["lo"][k] for k in lin)
@@ -44,6 +46,43 @@ def size_decade(inst):
         lin = {"cyl": (0, 2), "sph": (0,)}.get(inst["ch"]["type"], (0, 1, 2))
         cell = max([abs(a[k] - b[k]) for a, b in inst["edges"] for k in lin] + [1])
     return int(math.floor(math.log10(cell / body) + 0.5))
+
+
+def touches_axis(inst):
+    """does the cell / loop contain points of the chart axis r = 0 (cylindrical and spherical charts)?"""
+    if inst["ch"]["type"] not in ("cyl", "sph"):
+        return False
+    if inst["law"] == "flux":
+        return inst["lo"][0] == 0
+    return any(a[0] == 0 or b[0] == 0 for a, b in inst["edges"])
+
+
+def validate_named(files, tag):
+    """tlc.validate with per-check TLC work directories: C14 and C01 share the validator module TV_Integral, so the default
+    directory name (derived from the module name only) would collide when both checks run at the same time."""
+    import concurrent.futures as cf
+
+    from .. import tlaval
+
+    def one(args):
+        i, f = args
+        res = tlc.run_tlc("TV_Integral", "TV.cfg", name=f"tv_{tag}_{i}", workers=1, xmx="3g", env={"TRACE_FILE": f})
+        vals = tlaval.parse_many(res["out"])
+        summ = [v for v in vals if isinstance(v, list) and v and v[0] == "validated"]
+        if not summ:
+            raise MachineryError(f"validator TV_Integral produced no summary for {f}:\n{res['out'][-3000:]}")
+        rej = [v for v in vals if isinstance(v, list) and v and v[0] == "REJECT"]
+        if summ[0][3] != len(rej):
+            raise MachineryError(f"validator TV_Integral: summary says {summ[0][3]} rejected but {len(rej)} REJECT lines parsed")
+        return summ[0][1], rej, [v for v in vals if isinstance(v, list) and v and v[0] == "INFO"]
+
+    n, rejects, infos = 0, [], []
+    with cf.ThreadPoolExecutor(max_workers=16) as ex:
+        for k, r, i in ex.map(one, list(enumerate(files))):
+            n += k
+            rejects += r
+            infos += i
+    return n, rejects, infos
 
 
 def execute(prop, cfg, rep, dump_name, extra_events=None):
@@ -59,14 +98,14 @@ def execute(prop, cfg, rep, dump_name, extra_events=None):
     rep.set("mc_invariants", "PremiseInv, LkInv, FarInv, SplitInv, DerivedInv")
     rep.phase("model_check")
     plan = drv.plan_from_states(states)
-    jobs = drv.make_jobs(prop, plan, tier())
+    jobs = drv.make_jobs(prop, plan, tier(), rnd_every=3 if tier() == "quick" else 1)   # thorough: every scene also under a random kappa
     with mp.Pool(min(16, len(jobs))) as pool:
         events = [e for evs in pool.map(drv.run_job, jobs) for e in evs]
     rep.phase("measure")
     events.sort(key=lambda e: e["tid"])
     tv = [drv.tv_event(e) for e in events] + list(extra_events or [])
     files = tlc.shard_events(tv, dump_name, nshards=16)
-    n, rejects, infos = tlc.validate("TV_Integral", "TV.cfg", files)
+    n, rejects, infos = validate_named(files, dump_name)
     if n != len(tv):
         raise MachineryError(f"validator saw {n} instances, harness logged {len(tv)}")
     rep.phase("validate")
@@ -86,19 +125,20 @@ def summarize(rep, prop, plan, events, rejects, infos):
     per_fam = {}
     for e in events:
         tid = e["tid"]
-        if tid in bad or tid in unme or e["inst"]["law"] not in ("flux", "circ"):
+        if tid in bad or tid in unme:
             continue
         p = plan[tid % 1_000_000]
         key = (e["inst"]["law"], e["inst"]["fam"], tuple(p["cls"]), size_decade(e["inst"]), e["kappa"])
         nontrivial.add(key)
         per_fam[f"{e['inst']['law']}:{e['inst']['fam']}"] = per_fam.get(f"{e['inst']['law']}:{e['inst']['fam']}", 0) + 1
-        if p["hist"].get("lk0", 0) == 0 and e["raw"].get("gross"):
+        if e["inst"]["law"] in worst and p["hist"].get("lk0", 0) == 0 and e["raw"].get("gross"):
             worst[e["inst"]["law"]] = max(worst[e["inst"]["law"]], abs(e["raw"]["v32"]) / e["raw"]["gross"])
     rep.set("evaluations", len(events))
     rep.set("field_points_evaluated", int(sum(e.get("nodes", 0) for e in events)))
     rep.set("distinct_nontrivial", len(nontrivial))
     rep.set("rule", RULE)
     rep.set("unmeasurable", len(unme))
+    rep.set("unmeasurable_rough", sum(1 for i in infos if len(i) > 4 and i[4] == "Rough"))
     rep.set("accepted_per_family", per_fam)
     rep.set("linked_loops_measured", sum(1 for e in events if e["inst"]["law"] == "circ" and plan[e["tid"] % 1_000_000]["hist"].get("lk0", 0) != 0))
     rep.set("worst_accepted_residual_of_gross", {k: float(f"{v:.3g}") for k, v in worst.items()})
@@ -110,9 +150,16 @@ def summarize(rep, prop, plan, events, rejects, infos):
         p = plan[tid % 1_000_000]
         inst = e["inst"]
         where = {"law": inst["law"], "family": inst["fam"], "classes": "+".join(s["cls"] for s in inst["scene"]),
-                 "coverage": "+".join(p["cls"]), "size_decade": size_decade(inst)}
+                 "coverage": "+".join(p["cls"]), "size_decade": size_decade(inst), "touches_axis": touches_axis(inst), "refined": e.get("sub", 0) > 1}
+        if "|" in inst["fam"]:  # C01 branch-coverage family: "<class>|<switch surface>|<side>"
+            c, surf, side = inst["fam"].split("|")
+            where.update({"class": c, "switch_surface": surf, "side": side})
+            if inst["law"] == "point":
+                where.update({"field": inst["pt"]["field"], "on_axis": sum(1 for a, b in zip(inst["pt"]["obs"], inst["scene"][0]["p"]) if a != b) == 1})
         raw = e.get("raw", {})
-        what = (f"{clause}: {inst['law']} over {'cell ' + str(inst['lo']) + '..' + str(inst['hi']) if inst['law'] == 'flux' else 'loop ' + cjson(inst['edges'])[:120]} "
+        geom = ("cell " + str(inst["lo"]) + ".." + str(inst["hi"]) if inst["law"] == "flux" else "loop " + cjson(inst["edges"])[:120] if inst["law"] == "circ"
+                else f"{inst['pt']['field']} at {inst['pt']['obs']} (rho={inst['pt']['rho']}) q8={e.get('obs')} w/gross={raw.get('w_over_gross')}")
+        what = (f"{clause}: {inst['law']} over {geom} "
                 f"in {inst['ch']['type']} chart of {where['classes']} ({where['coverage']}), kappa={e['kappa']}: measured/gross={raw.get('v32', 0) / raw['gross'] if raw.get('gross') else raw}, "
                 f"q12={e['meas']['q']} qerr12={e['qerr']} amp={e['amp']}")
         rep.reject(clause, where, what, {"event": {k: v for k, v in e.items()}}, prop=prop_r)
